@@ -11,6 +11,7 @@ GetSegmentIntersectPt and Area are numeric and NOT decided.
 """
 from ..astq import AstDB
 from ..engines import e3_tables as e3
+from ..engines import e9_safety as e9
 
 LEVEL = "other"
 
@@ -19,6 +20,7 @@ def run(chk):
     cfgs = ["base", "port"] if chk.tier == "quick" else ["base", "port", "z", "hi", "port+z"]
     chk.configs = cfgs
     chk.rule("P.integer-only", "no expression of floating type in the exact predicates; products are formed in __int128 or in uint64 inside Multiply")
+    chk.rule("INT64.product", "no product is formed in a signed 64-bit integer type anywhere in the library")
     chk.rule("P.portable-sign", "portable tails: CrossProductSign == sign(sign_ab*|ab| - sign_cd*|cd|) with |.| ordered by (hi, lo); "
              "ProductsAreEqual == (signs equal and magnitudes equal); TriSign == sign")
     chk.rule("P.multiply-no-wrap", "every 64-bit intermediate of Multiply stays below 2^64 for all inputs (interval analysis)")
@@ -26,6 +28,7 @@ def run(chk):
         db = AstDB(cfg)
         e3.predicates_integer_only(db, chk, cfg)
         e3.multiply_no_wrap(db, chk, cfg)
+        e9.rule_int64_product(db, chk, cfg)
         if "port" in cfg.split("+"):
             e3.portable_sign_logic(db, chk, cfg)
     chk.floor("P.integer-only", 5 * len(cfgs))
